@@ -34,7 +34,7 @@ def run(A, R: Report, thorough: bool):
     R.rule('R11.1', 'the traversal iterates every element of sequences and every value of mappings, recurses first, and applies the function only to values of an allowed type', floor=3)
     tparam = ftr.params[0]
     fce = fsa.params[1]
-    cfgt = A.cfg(ftr)
+    cfgt = A.cfg(ftr, predicates=False)   # the rule talks about the calls of _traverse / _is_valid themselves
     allnodes = list(cfgt.nodes)
     triples = A.nodes_with_sites(ftr)
 
@@ -202,6 +202,10 @@ def run(A, R: Report, thorough: bool):
                 R.ok('R11.3', construct, 'defined -> str(value), undefined -> the placeholder verbatim', witness=[pretty(mt)[:200]], where=where(frp))
             elif has_opaque(mt):
                 R.undecided('R11.3', construct, 'the callback involves a construct the term engine does not interpret', where=where(frp))
+            elif not uses_test and any(x[0] == 'or' and isinstance(x[1], tuple) and len(x[1]) >= 2 and any(v_ == normalise(x[1][-1]) or v_ == x[1][-1] for v_ in [normalise(v) for v in verbatim] + list(verbatim)) for x in dag_nodes(mt)):
+                R.violation('R11.3', construct, key_of('falsy-undefined', pretty(mt)[:100]),
+                            'whether a placeholder is defined is decided by the truthiness of its value (`<lookup> or <placeholder>`): a name defined as 0, "", False or None is left unsubstituted',
+                            witness=[pretty(mt)[:300]], where=where(frp))
             elif mode == 'object' and not uses_test and any(x[0] == 'cmp' and x[1] in ('In', 'NotIn') and x[2] == name_t for x in dag_nodes(mt)):
                 R.violation('R11.3', construct, key_of('object-lookup', pretty(mt)[:120]),
                             'for a global_vars object the placeholder name is looked up by membership instead of attribute access: names defined as class attributes, properties or inherited attributes count as undefined and stay unsubstituted',
